@@ -2,11 +2,15 @@
 """Regenerates /verif/MANIFEST.json from the table below (single source of truth)."""
 import json, subprocess
 
-HOOK_COMMITS = ["d85c6ee", "170bde9", "43ffa35", "8043914", "4c6f2d6", "8d2eb59"]
+HOOK_COMMITS = ["d85c6ee", "170bde9", "43ffa35", "8043914", "4c6f2d6", "8d2eb59", "c0750bc"]
 
 # id -> (engine, category, technique, level text, level note, design ref)
 CHECKS = {
- "C07": ("E1-simnet-explorer", "model_checking",
+ "C02": ("E1-simnet-explorer", "model_checking",
+   "exhaustive enumeration of Byzantine answer assignments and arrival orders against a real reader node over a simulated network, independent re-verification of everything the API surfaces",
+   "A real node runs every lookup API over 3 scripted endpoints; every assignment of a forgery-menu answer (8-10 classes incl. type confusion, other key, other salt, replay from the other slot, bit flips) to every endpoint in every arrival order is executed, alone and with a second caller (or the node's own put) sharing the still-active lookup; each surfaced element is re-verified with sha1/ed25519 by the harness.",
+   "Forgery classes rather than all byte strings; oracle trusts sha1_smol and ed25519-dalek verification.", "DESIGN.md section 6, C02"),
+  "C07": ("E1-simnet-explorer", "model_checking",
    "exhaustive enumeration of endpoint behaviours around the K=20 boundary against a real initiator over a simulated network; verdict computed from the lookup's own datagram trace",
    "A real node runs each lookup kind over 3..26 scripted endpoints with BEP42-secure ids; every choice of up to 2 (quick) / 3 (thorough) varying endpoints at ranks 1,2,19,20,21,22 x 7 list behaviours x 3 initial-knowledge shapes is executed (thorough adds every single latency deviation on the base shapes); closure, the reported / stored-to set and the never-ask-again rule are decided from the trace alone.",
    "Loss-free network; sizes above 26 are represented by the ranks relative to the 20-boundary.", "DESIGN.md section 6, C07"),
